@@ -348,7 +348,7 @@ impl<'a> Gen<'a> {
         let mut n = self.rng.range(1, self.cfg.max_assertions.max(1));
         // now and then a wide node, at and around power-of-two widths
         if self.cfg.wide && self.rng.chance(1, 40) {
-            n = *self.rng.pick(&[7usize, 8, 9, 15, 16, 17, 31, 32, 33, 63, 64, 65, 100, 127, 128, 129, 256, 257]);
+            n = *self.rng.pick(&[7usize, 8, 9, 15, 16, 17, 22, 23, 24, 31, 32, 33, 63, 64, 65, 100, 127, 128, 129, 254, 255, 256, 257]);
             let subject = self.leaf_or_known();
             let asr: Vec<M> = (0..n).map(|i| M::Assertion(Box::new(M::Leaf(Item::UInt(i as u64))), Box::new(self.part(0)))).collect();
             return M::Node(Box::new(subject), asr);
